@@ -206,7 +206,15 @@ def array_shard(args):
                     wide[n] = cols[n]
                 return vector.array(wide[list(names)])          # a multi-field view: same memory, explicit (non-packed / permuted) field offsets
             return f
+        def structured_kw(**kw):
+            def f():
+                raw = np.zeros(2, dtype=[(n, float) for n in names])
+                for n in names:
+                    raw[n] = cols[n]
+                return vector.array(raw, **kw)
+            return f
         ctors = [("array", lambda: vector.array({n: cols[n] for n in names})), ("array(structured-ndarray)", structured),
+                 ("array(structured-ndarray,copy=True)", structured_kw(copy=True)), ("array(structured-ndarray,order='C',ndmin=1)", structured_kw(order="C", ndmin=1)),
                  ("array(multi-field-view-of-reversed-record)", multifield(False)), ("array(multi-field-view-of-wider-record)", multifield(True)),
                  ("array(dtype)", lambda: vector.array(list(zip(*[cols[n] for n in names])), dtype=[(n, float) for n in names]))]
         if ak is not None:
